@@ -42,9 +42,10 @@ StressOK(c, r) ==
                          \* start k lies on the hop lattice: within four units in the last place of clip.start + (k-1)*hop, where the
                          \* product and the sum are formed EXACTLY from the doubles that were passed (r.hd = the hop as a limb number);
                          \* one multiplication and one addition in floating point stay within one such unit, a running sum does not
+                         \* (stated on magnitudes, hence for clips that start at or after time 0 only)
                          /\ \A j \in DOMAIN r.segs :
                                LET E == LSumMag(r.cs, IF j = 1 THEN LInt(0) ELSE LMulMag(r.hd, j - 1))
-                               IN  (j <= 32000 /\ E[2] < 32000) => LWithin(r.segs[j][1], E, LUlps4(E[2] + 1))
+                               IN  (j <= 32000 /\ E[2] < 32000 /\ r.cs[1] >= 0) => LWithin(r.segs[j][1], E, LUlps4(E[2] + 1))
                          /\ \A k \in DOMAIN r.segs : /\ LLe(r.cs, r.segs[k][1])
                                                       /\ LLt(r.segs[k][1], r.segs[k][2])
                                                       /\ LLe(r.segs[k][2], r.ce)
